@@ -13,12 +13,15 @@ ASSUMPTIONS = ['truth value: logicals as themselves, numbers true iff non-zero, 
                'dates and arrays are not given to the five classifying predicates (the statement names numbers, text, logicals, blanks and errors only)',
                'ISEVEN/ISODD are compared by truthiness (1/0 is accepted for TRUE/FALSE) on finite numbers below 2^53']
 
-truthy = st.one_of(st.booleans(), st.integers(-3, 3), st.sampled_from([0, 0.0, 0.5, -2.5, 1e-9, 7, -1]), st.none(), st.floats(-100, 100, allow_nan=False))
+truthy = st.one_of(st.booleans(), st.integers(-3, 3), st.sampled_from([0, 0.0, 0.5, -2.5, 1e-9, 7, -1]), st.none(), st.floats(-100, 100, allow_nan=False),
+                   st.sampled_from([{'$': 'pow', 'v': [10, 400]}, {'$': 'pow', 'v': [-3, 701]}, 2 ** 70, -(10 ** 20)]))       # a non-zero number is true, whatever its size (integers beyond the double range are exact integers)
 
 
 def tv(x):
     if x is None:
         return False
+    if isinstance(x, dict) and x.get('$') == 'pow':
+        return True
     return bool(x)
 
 
@@ -122,6 +125,12 @@ def check_connective(case):
         expect('AND(%s)' % A, env, all(tvs), desc=d + 'AND')
         expect('OR(%s)' % A, env, any(tvs), desc=d + 'OR')
         expect('XOR(%s)' % A, env, sum(tvs) % 2 == 1, desc=d + 'XOR')
+        if case['how'] == 'var':
+            # the same host value mentioned twice in one call is two arguments: XOR(a, a) is FALSE whatever a holds, AND/OR(a, a) what they are for a
+            n0 = names[0]
+            t0 = [tv(x) for x in (flat(args[0]) if isinstance(args[0], list) else [args[0]])]
+            expect('XOR(%s,%s)' % (n0, n0), env, False, desc=d + 'XOR(first argument twice)')
+            expect('XOR(%s,%s,%s)' % (n0, n0, n0), env, sum(t0) % 2 == 1, desc=d + 'XOR(first argument three times)')
     x = items[0]
     env2 = Env(vars={'v_x': dec(x)})
     if is_errspec(x):
